@@ -66,6 +66,17 @@ Tpl(id) ==
                            rxns |-> <<Rx("v1", <<"A">>, <<"B">>, <<"A", "d2">>, TRUE),
                                       Rx("v2", <<"X">>, <<"Y">>, <<"X", "d1", "k2">>, FALSE),
                                       Rx("v3", <<"B">>, <<"A">>, <<"k1", "B">>, TRUE)>>]
+      \* merge / split embedded in a network whose other reactions introduce the compounds first (declaration-order cases)
+      [] id = "binet"  -> [cpds |-> <<"A", "B", "C">>, lab |-> <<"A", "B", "C">>, der |-> Empty,
+                           rxns |-> <<Rx("v0", <<>>, <<"A">>, <<"k0">>, TRUE),
+                                      Rx("v3", <<>>, <<"B">>, <<"k3">>, TRUE),
+                                      Rx("v1", <<"A", "B">>, <<"C">>, <<"A", "B", "k1">>, TRUE),
+                                      Rx("v2", <<"C">>, <<>>, <<"k2", "C">>, TRUE)>>]
+      [] id = "splitnet" -> [cpds |-> <<"A", "B", "C">>, lab |-> <<"A", "B", "C">>, der |-> Empty,
+                           rxns |-> <<Rx("v0", <<>>, <<"A">>, <<"k0">>, TRUE),
+                                      Rx("v2", <<"B">>, <<>>, <<"k2", "B">>, TRUE),
+                                      Rx("v3", <<"C">>, <<>>, <<"k3", "C">>, TRUE),
+                                      Rx("v1", <<"A">>, <<"B", "C">>, <<"k1", "A">>, TRUE)>>]
       [] id = "chain"  -> [cpds |-> <<"A", "B">>, lab |-> <<"A", "B">>, der |-> Empty,
                            rxns |-> <<Rx("v0", <<>>, <<"A">>, <<"k0">>, TRUE),
                                       Rx("v1", <<"A">>, <<"B">>, <<"k1", "A">>, TRUE),
